@@ -188,7 +188,71 @@ def _op_tls_premaster(l, seed, n):
     return r, out.raw()
 
 
+# composite operations: one call makes several SM2 encryptions / signatures (one per recipient / signer)
+def _cms_parties(l, seed, k, tag):
+    from vlib import cmslib as CL
+    ds = [_d(seed, "%s%d" % (tag, i)) for i in range(k)]
+    certs = [CL.party_cert("%s %d/%d" % (tag, seed, i), "toolkit:C18 CA" if i % 2 else "C18 CA", ((1 + i) << 16) | ((seed & 0xFF) << 8) | 7, d) for i, d in enumerate(ds)]
+    return ds, certs
+
+
+def _op_cms_envelop(l, seed, n):
+    k = 2 + n % 3
+    ds, certs = _cms_parties(l, seed, k, "rcpt")
+    cb = Buf.of(b"".join(certs))
+    content = _bytes(seed, "content", 20)
+    out = Buf(4096 + 600 * k, fill=0); ol = ctypes.c_size_t(0)
+    r = l.cms_envelop(out, ctypes.byref(ol), cb, cb.n, const("OID_sm4_cbc"), Buf.of(_bytes(seed, "cek", 16)), 16, Buf.of(_bytes(seed, "iv", 16)), 16,
+                      const("OID_cms_data"), Buf.of(content), len(content), None, 0, None, 0)
+    return r, out.raw(ol.value) if r == 1 else b""
+
+
+def _op_cms_sign(l, seed, n):
+    from vlib import cmslib as CL
+    k = 2 + n % 3
+    ds, certs = _cms_parties(l, seed, k, "signer")
+    arr, keep = CL.signers_array([(c, key_in(d, M.pub_of(d))) for c, d in zip(certs, ds)])
+    content = _bytes(seed, "content", 20)
+    out = Buf(4096 + 900 * k, fill=0); ol = ctypes.c_size_t(0)
+    r = l.cms_sign(out, ctypes.byref(ol), arr, k, const("OID_cms_data"), Buf.of(content), len(content), None, 0)
+    return r, out.raw(ol.value) if r == 1 else b""
+
+
+def _op_cms_sign_and_envelop(l, seed, n):
+    from vlib import cmslib as CL
+    k = 2 + n % 2
+    ds, certs = _cms_parties(l, seed, k, "signer")
+    rds, rcerts = _cms_parties(l, seed, 2 + (n >> 1) % 2, "rcpt")
+    arr, keep = CL.signers_array([(c, key_in(d, M.pub_of(d))) for c, d in zip(certs, ds)])
+    cb = Buf.of(b"".join(rcerts))
+    content = _bytes(seed, "content", 20)
+    out = Buf(8192 + 1500 * k, fill=0); ol = ctypes.c_size_t(0)
+    r = l.cms_sign_and_envelop(out, ctypes.byref(ol), arr, k, cb, cb.n, const("OID_sm4_cbc"), Buf.of(_bytes(seed, "cek", 16)), 16, Buf.of(_bytes(seed, "iv", 16)), 16,
+                               const("OID_cms_data"), Buf.of(content), len(content), None, 0, None, 0, None, 0)
+    return r, out.raw(ol.value) if r == 1 else b""
+
+
+def _cms_nonce_values(op, seed, n, output):
+    """values that are equal exactly when two SM2 nonces of this one message are equal: C1 of every RecipientInfo, and the nonce of
+    every SignerInfo recovered with the signer's private key (k = s(1+d) + rd)"""
+    from vlib import cmslib as CL
+    m = CL.Msg(output)
+    vals = []
+    if m.rcpt_infos is not None:
+        for (_ri, ek, _iss, _ser) in m.enc_keys():
+            ct = D.parse_ct(ek.content)
+            vals.append(("C1", ct[0], ct[1]))
+    if m.signer_infos is not None:
+        k = (2 + n % 3) if op == "cms_sign" else (2 + n % 2)
+        ds, _ = _cms_parties(None, seed, k, "signer")
+        for i, (_si, sig, _iss, _ser) in enumerate(m.signatures()):
+            r_, s_ = D.parse_sig(sig.content)
+            vals.append(("k", M.recover_k(ds[i], r_, s_)))
+    return vals
+
+
 PURE = {
+    "cms_envelop": _op_cms_envelop, "cms_sign": _op_cms_sign, "cms_sign_and_envelop": _op_cms_sign_and_envelop,
     "sm2_key_generate": _op_sm2_keygen, "sm2_sign": _op_sm2_sign, "sm2_do_sign": _op_sm2_do_sign, "sm2_sign_fixlen": _op_sm2_sign_fixlen,
     "sm2_sign_ctx": _op_sm2_sign_ctx, "sm2_encrypt": _op_sm2_encrypt, "sm2_encrypt_fixlen": _op_sm2_encrypt_fixlen, "sm2_encrypt_ctx": _op_sm2_encrypt_ctx,
     "pkcs8_encrypt": _op_pkcs8_encrypt, "sm9_sign_master_key_generate": _op_sm9_sign_master, "sm9_enc_master_key_generate": _op_sm9_enc_master,
@@ -228,6 +292,11 @@ def pure(case, ctx):
     ctx.check(r1 == 1 and D1 >= 1, "%s did not succeed or drew no entropy on the dry run (ret=%d, draws=%d)" % (op, r1, D1), "dry/" + op)
     ctx.check(r2 == 1 and o2 == o1 and D2 == D1, "%s: same entropy stream and clock gave different output (%d vs %d draws)" % (op, D1, D2), "same-stream/" + op)
     ctx.check(r3 == 1 and o3 != o1, "%s: a different entropy stream gave the same output" % op, "other-stream/" + op)
+    if op.startswith("cms_"):
+        nv = _cms_nonce_values(op, seed, n, o1)
+        ctx.check(len(set(nv)) == len(nv) and len(nv) >= 2, "%s: one message carries %d SM2 nonce-derived values of which only %d are distinct: %s" %
+                  (op, len(nv), len(set(nv)), [v[0] + ":" + ("%x" % v[1])[:16] for v in nv]), "nonce-reuse/" + op)
+        ctx.check(D1 >= len(nv), "%s made %d randomised SM2 operations from only %d entropy draws" % (op, len(nv), D1), "nonce-reuse/draws/" + op)
     # fail closed at every draw index
     for i in range(min(D1, 80)):
         try:
